@@ -67,7 +67,7 @@ def _kani_once(names, scratch, jobs, timeout, playback):
     else:
         cmd += ["-j", str(jobs)]
     for n in names:
-        cmd += ["--harness", "harness::proofs::" + n]
+        cmd += ["--harness", "registry::proofs::" + n]
     try:
         p = subprocess.run(cmd, cwd=crate, env=env, stdout=subprocess.PIPE, stderr=subprocess.STDOUT, timeout=timeout)
         return p.stdout.decode("utf-8", "replace")
@@ -76,7 +76,7 @@ def _kani_once(names, scratch, jobs, timeout, playback):
 
 
 def _parse(out, res):
-    for m in re.finditer(r"Checking harness harness::proofs::(\w+)\.\.\.(.*?)(?=Checking harness |Manual Harness Summary|\Z)", out, re.S):
+    for m in re.finditer(r"Checking harness registry::proofs::(\w+)\.\.\.(.*?)(?=Checking harness |Manual Harness Summary|\Z)", out, re.S):
         name, body = m.group(1), m.group(2)
         if name not in res:
             continue
@@ -89,10 +89,10 @@ def _parse(out, res):
         if tm:
             res[name]["time_s"] = float(tm.group(1))
     # with -j the per-harness bodies are not printed; fall back to the summary lines
-    for m in re.finditer(r"Verification failed for - harness::proofs::(\w+)", out):
+    for m in re.finditer(r"Verification failed for - registry::proofs::(\w+)", out):
         if m.group(1) in res:
             res[m.group(1)]["status"] = "failed"
-    for m in re.finditer(r"Concrete playback unit test for `harness::proofs::(\w+)`:\s*```(.*?)```", out, re.S):
+    for m in re.finditer(r"Concrete playback unit test for `registry::proofs::(\w+)`:\s*```(.*?)```", out, re.S):
         name, body = m.group(1), m.group(2)
         bs = []
         for v in re.findall(r"vec!\[([0-9, ]*)\]", body):
